@@ -10,6 +10,48 @@ import (
 	"golang.org/x/tools/go/ssa"
 )
 
+func init() {
+	extraNatives = append(extraNatives, func(e *Engine) {
+		// sort.Slice / SliceStable: stable insertion sort calling the interpreted less (the library
+		// versions go through reflectlite.Swapper). Elements that compare equal keep their order,
+		// which is one of the orders the library may produce.
+		sortSlice := func(x *Exec, fr *frame, a []Value) Value {
+			x.noSpec("sort.Slice")
+			it, ok := a[0].(Iface)
+			if !ok || it.t == nil {
+				x.tpanic("sort.Slice of nil interface")
+			}
+			sl, ok := it.v.([]Value)
+			if !ok {
+				x.unsupported("sort.Slice of non-slice %T", it.v)
+			}
+			less := a[1]
+			for i := 1; i < len(sl); i++ {
+				for j := i; j > 0; j-- {
+					r := x.callValue(fr, 0, less, []Value{uint64(j), uint64(j - 1)})
+					if !x.truth(r) {
+						break
+					}
+					sl[j], sl[j-1] = sl[j-1], sl[j]
+				}
+			}
+			return nil
+		}
+		e.natives["sort.Slice"] = sortSlice
+		e.natives["sort.SliceStable"] = sortSlice
+
+		// log.FromCtx: the logger is never the subject of a property; return the repo's own
+		// log.DiscardLogger{} (non-nil, all methods are no-ops and are interpreted).
+		e.natives["github.com/scionproto/scion/pkg/log.FromCtx"] = func(x *Exec, fr *frame, a []Value) Value {
+			obj := fr.fn.Pkg.Pkg.Scope().Lookup("DiscardLogger")
+			if obj == nil {
+				x.unsupported("pkg/log.DiscardLogger not found")
+			}
+			return Iface{t: obj.Type(), v: Struct{}}
+		}
+	})
+}
+
 // classKey returns a canonical string for a fully concrete value (pointers by identity);
 // ok=false when the value has symbolic or un-keyable parts.
 func classKey(v Value) (string, bool) {
@@ -104,6 +146,28 @@ func (x *Exec) selectByClass(base []Value, idx *Term) (int, bool) {
 	memo := fmt.Sprintf("classmemo:%p:%d", &base[0], idx.id)
 	if k, ok := x.ghost[memo]; ok {
 		return classes[k.(uint64)].first, true
+	}
+	// index already forced to a single value by the path condition? (2 queries instead of a fork;
+	// deterministic, hence the same on replay)
+	if x.spec != nil {
+		panic(specAbort{"element class decision in speculation"})
+	}
+	if len(x.injective) > 0 {
+		x.flushInjectivity()
+	}
+	if r, mv, err := x.solver.CheckModel(x.pc, x.st.Bool(true), []*Term{idx}); err == nil && r == Sat {
+		v := mv[0].lo
+		if x.check(x.st.Not(x.st.Eq(idx, x.st.Const(idx.w, v))), false) == Unsat && v < uint64(len(base)) {
+			x.addPC(x.st.Eq(idx, x.st.Const(idx.w, v)))
+			for k, c := range classes {
+				for _, i := range c.idxs {
+					if uint64(i) == v {
+						x.ghost[memo] = uint64(k)
+						return c.first, true
+					}
+				}
+			}
+		}
 	}
 	// one n-ary decision (all alternatives start in parallel); infeasible classes end at once
 	replayed := x.pos < len(x.prefix)
